@@ -16,8 +16,12 @@ def strip_comments(src):
     return "".join(out)
 ob = json.load(open(os.path.join(ROOT,"obligations.json")))
 for prop in sys.argv[1:]:
-    src = strip_comments(open(os.path.join(ROOT,"lean/Pds/Props",prop+".lean")).read())
-    names = re.findall(r"^\s*theorem\s+([A-Za-z_][A-Za-z0-9_'.]*)", src, re.M)
+    names = []
+    for sub, prefix in (("Props", ""), ("Tie", "Tie.")):
+        path = os.path.join(ROOT, "lean/Pds", sub, prop + ".lean")
+        if os.path.exists(path):
+            src = strip_comments(open(path).read())
+            names += [prefix + n for n in re.findall(r"^\s*theorem\s+([A-Za-z_][A-Za-z0-9_'.]*)", src, re.M)]
     ob[prop] = names
     print(prop, len(names), "theorems pinned")
 json.dump(ob, open(os.path.join(ROOT,"obligations.json"),"w"), indent=1, sort_keys=True)
